@@ -36,11 +36,17 @@ ASSUMPTIONS = [
     'evaluation outcomes of the round trip are compared as canonical values (node = kind + document position); '
     'non-ElementPathError exceptions raised by evaluation are compared by type only (escapes are C03)',
 ]
+EXHAUSTIVE_NOTE = ('sub-check pairs is a complete enumeration: every operator form of a version (all binary operators, '
+                   'path/root, unary, predicate, call, the four type operators, comma, if/for/some/every/let, dynamic call, '
+                   'inline function, arrow, lookup, map/array constructors) nested in every operand slot of every other '
+                   'form: 730 / 3818 / 4692 / 5974 expressions for XPath 1.0 / 2.0 / 3.0 / 3.1, each rendered minimally and '
+                   'fully parenthesised')
 FLOORS = {
-    'grouping:multi-level': (0.35, 'grouping:case'),
+    'grouping:multi-level': (0.25, 'grouping:case'),
     'grouping:same-level-pair': (0.08, 'grouping:case'),
-    'grouping:parens-needed': (0.25, 'grouping:case'),
+    'grouping:parens-needed': (0.15, 'grouping:case'),
     'grouping:ok': (0.60, 'grouping:case'),
+    'pairs:ok': (0.60, 'pairs:case'),
     'ws:comment': (0.30, 'ws:case-2.0+'),
     'ws:variant-ok': (0.50, 'ws:case'),
     'roundtrip:value-compared': (0.50, 'roundtrip:case'),
@@ -852,6 +858,25 @@ def selftest():
 # --------------------------------------------------------------------------
 # module interface
 # --------------------------------------------------------------------------
+def _pair_jobs():
+    # finite space, enumerated completely in both tiers: every operator form nested in every operand slot of every other
+    return [{'check': 'pairs', 'ver': v, 'part': i, 'parts': k} for v, k in (('1.0', 1), ('2.0', 2), ('3.0', 2), ('3.1', 2))
+            for i in range(k)]
+
+
+def _pair_cases(job):
+    for idx, (label, a) in enumerate(X.pair_space(job['ver'])):
+        if idx % job['parts'] != job['part']:
+            continue
+        try:
+            X.render(a, job['ver'], False)
+            X.render(a, job['ver'], True)
+        except ValueError:
+            yield label, None           # not derivable in this version (XPath 1.0 steps)
+            continue
+        yield label, {'ver': job['ver'], 'asts': [a]}
+
+
 def jobs(tier, seed):
     q = tier == 'quick'
     out = []
@@ -861,7 +886,7 @@ def jobs(tier, seed):
             out.append({'check': chk, 'shard': i, 'n': n, 'seed': derive_seed(seed, 'C04', chk, i), **kw})
     if q:
         add('grouping', 5, 900, depth=3, batch=6)
-        add('pairs', 2, 1200, batch=8)
+        out.extend(_pair_jobs())
         add('ws', 3, 700, depth=3, batch=4)
         add('roundtrip', 3, 600, depth=3, batch=4)
         add('negative', 1, 2500)
@@ -870,13 +895,13 @@ def jobs(tier, seed):
         out.append({'check': 'hashseed', 'shard': 1, 'n': 80, 'seed': derive_seed(seed, 'C04', 'hashseed', 1),
                     'hashseeds': [0, 7, 42, 1234], 'special': False})
     else:
-        add('grouping', 5, 12000, depth=4, batch=6)
-        add('pairs', 2, 9000, batch=8)
-        add('ws', 3, 9000, depth=3, batch=4)
-        add('roundtrip', 3, 8000, depth=4, batch=4)
-        add('negative', 1, 20000)
+        add('grouping', 5, 8000, depth=4, batch=6)
+        out.extend(_pair_jobs())
+        add('ws', 3, 6000, depth=3, batch=4)
+        add('roundtrip', 3, 5000, depth=4, batch=4)
+        add('negative', 1, 12000)
         for i in range(2):
-            out.append({'check': 'hashseed', 'shard': i, 'n': 400, 'seed': derive_seed(seed, 'C04', 'hashseed', i),
+            out.append({'check': 'hashseed', 'shard': i, 'n': 250, 'seed': derive_seed(seed, 'C04', 'hashseed', i),
                         'hashseeds': [0] + [derive_seed(seed, 'hs', i, k) % 4294967295 for k in range(15)],
                         'special': i == 0})
     return out
@@ -886,6 +911,14 @@ def run_job(job, rec: Recorder):
     chk = job['check']
     if chk == 'hashseed':
         return run_hashseed_job(job, rec)
+    if chk == 'pairs':
+        for label, case in _pair_cases(job):
+            if case is None:
+                rec.cls('pairs:not-derivable')
+                continue
+            rec.discs_of('pairs', case, judge_pairs(case, rec))
+        rec.extra['parser_instances_replaced_after_state_leak'] = POISONED[0]
+        return
     jd = _JUDGES[chk]
     hyp_collect(_strategy(job), lambda case: rec.discs_of(chk, case, jd(case, rec)), job['n'], job['seed'], rec)
     rec.extra['parser_instances_replaced_after_state_leak'] = POISONED[0]
@@ -911,6 +944,13 @@ def shrink_job(job, bucket, budget):
                             if d2.bucket == bucket:
                                 return small, d2
                 return full, d
+        return None
+    if chk == 'pairs':
+        for label, case in _pair_cases(job):
+            if case is not None:
+                for d in judge_pairs(case):
+                    if d.bucket == bucket:
+                        return case, d
         return None
     return hyp_shrink(_strategy(job), _JUDGES[chk], bucket, job['n'], job['seed'], budget)
 
